@@ -19,14 +19,16 @@ def grammar_functions(facts):
     return [b for b in facts.lib_bodies() if b.path.startswith(G) and b.kind in ("Fn", "AssocFn")]
 
 
-def analyse(facts, body, consuming, uses):
-    """Returns (list of violations, stats).  consuming / uses: sets of callee paths."""
+def analyse(facts, body, consuming, uses, eat_like=None):
+    """Returns (list of violations, stats).  consuming / uses: sets of callee paths; eat_like: consuming callees that
+    return Result<bool> and consume only when they return true."""
+    eat_like = eat_like if eat_like is not None else {P + "eat"}
     skips = {l["id"] for l in body.locals if l["ty"] == SKIP_TY}
     opt_skips = {l["id"] for l in body.locals if SKIP_TY in l["ty"] and l["id"] not in skips}
     cfg = body.cfg
     # eat(): consuming only on its true edge
     eat_edges = {}
-    for bid, t, sp, nm in flow.calls_named(body, lambda n: n == P + "eat"):
+    for bid, t, sp, nm in flow.calls_named(body, lambda n: n in eat_like):
         e = flow.ok_edge(body, bid)
         if not e:
             continue
@@ -36,7 +38,7 @@ def analyse(facts, body, consuming, uses):
             tt = body.blocks[x]["term"]["t"]
             if tt["k"] == "switch" and tt.get("discr_ty") == "bool" and cfg.dominates(okt, x):
                 ls = flow.slice_back(body, tt["discr"])
-                if any(l[0] == "call" and l[1] == P + "eat" and l[2] == bid for l in ls):
+                if any(l[0] == "call" and l[1] in eat_like and l[2] == bid for l in ls):
                     neg = _negated(body, tt["discr"])
                     f = None
                     for v, y in tt["targets"]:
@@ -113,7 +115,7 @@ def analyse(facts, body, consuming, uses):
             if c in uses:
                 for a in t["args"]:
                     use(a, "argument of " + c.split("::")[-1], b["term"]["span"])
-            if c == P + "eat":
+            if c in eat_like:
                 for l in list(st):
                     if st[l] == "F":
                         st[l] = "E"
